@@ -322,6 +322,7 @@ func (r *Report) Finish(findingsDir, verifDir string, seed int64) int {
 			"undecided":           undec,
 			"rules":               rules,
 			"samples":             samples,
+			"all_obligations":     r.Obls,
 			"residual_assumptions": resid,
 			"undecided_clauses":   r.Undecided,
 			"analysed":            r.Analysed,
